@@ -17,6 +17,8 @@ package cgozlib
 
 /*
 #cgo pkg-config: zlib
+#include <stdlib.h>
+
 #include "zlib.h"
 
 typedef struct {
@@ -121,7 +123,12 @@ type Reader struct {
 	readErr error
 	zlibErr error
 
-	z C.z_stream
+	// z is allocated by C.calloc, not embedded in this (Go-allocated) struct:
+	// inflate stores and advances the next_in and next_out pointers, which
+	// point into Go slices, inside the z_stream while a call is in progress,
+	// and C code must not store Go pointers in Go memory, even temporarily
+	// (the garbage collector may scan that memory concurrently).
+	z *C.z_stream
 	a C.advances
 }
 
@@ -137,7 +144,15 @@ func (r *Reader) Reset(reader io.Reader, dictionary []byte) error {
 		return errNilIOReader
 	}
 
-	if e := C.cgozlib_inflateInit(&r.z); e != 0 {
+	if r.z == nil {
+		r.z = (*C.z_stream)(C.calloc(1, C.sizeof_z_stream))
+		if r.z == nil {
+			return errCode(-4) // Z_MEM_ERROR
+		}
+	}
+	if e := C.cgozlib_inflateInit(r.z); e != 0 {
+		C.free(unsafe.Pointer(r.z))
+		r.z = nil
 		return errCode(e)
 	}
 
@@ -163,7 +178,10 @@ func (r *Reader) Close() error {
 	r.dict = nil
 	r.readErr = nil
 	r.zlibErr = nil
-	if e := C.cgozlib_inflateEnd(&r.z); e != 0 {
+	e := C.cgozlib_inflateEnd(r.z)
+	C.free(unsafe.Pointer(r.z))
+	r.z = nil
+	if e != 0 {
 		return errCode(e)
 	}
 	return nil
@@ -204,7 +222,7 @@ func (r *Reader) Read(p []byte) (int, error) {
 			continue
 		}
 
-		e := C.cgozlib_inflate(&r.z, &r.a,
+		e := C.cgozlib_inflate(r.z, &r.a,
 			(*C.Bytef)(unsafe.Pointer(&p[0])),
 			(C.uInt)(len(p)),
 			(*C.Bytef)(unsafe.Pointer(&r.buf[r.i])),
@@ -221,7 +239,7 @@ func (r *Reader) Read(p []byte) (int, error) {
 		} else if e == errCodeStreamEnd {
 			r.zlibErr = io.EOF
 		} else if (e == errCodeNeedDict) && (len(r.dict) > 0) {
-			e = C.cgozlib_inflateSetDictionary(&r.z,
+			e = C.cgozlib_inflateSetDictionary(r.z,
 				(*C.Bytef)(unsafe.Pointer(&r.dict[0])),
 				(C.uInt)(len(r.dict)),
 			)
